@@ -163,7 +163,7 @@ func gen(t *rapid.T, o GenOpts) Generated {
 	// schema
 	nEdb := rapid.IntRange(1, 3).Draw(t, "nEdb")
 	for i := 0; i < nEdb; i++ {
-		ar := rapid.SampledFrom([]int{1, 1, 2, 2, 2, 3, 0, 1, 2, 2, 3, 5}).Draw(t, "edbArity")
+		ar := rapid.SampledFrom([]int{1, 1, 2, 2, 2, 3, 0, 1, 2, 2, 3, 5, 4, 4}).Draw(t, "edbArity")
 		cols := ""
 		for c := 0; c < ar; c++ {
 			cols += string(rapid.SampledFrom([]byte("nnnna")).Draw(t, "edbCol"))
@@ -278,7 +278,22 @@ func genRule(t *rapid.T, o GenOpts, schema []PredInfo, h PredInfo, exitRule bool
 		}
 		a := Atom{Pred: p.Name, Args: []Term{}}
 		var pending [][2]string
+		// wide atoms after the first: sometimes only a column behind the third is bound when the atom is looked up
+		lateKey := len(p.Cols) >= 4 && i > 0 && rapid.IntRange(0, 2).Draw(t, "lateKey") == 0
+		if lateKey {
+			labels["wide-atom-bound-only-behind-third-column"] = true
+		}
 		for c := 0; c < len(p.Cols); c++ {
+			if lateKey && c < 3 {
+				v := g.fresh(p.Cols[c])
+				pending = append(pending, [2]string{string(p.Cols[c]), v})
+				a.Args = append(a.Args, Var(v))
+				continue
+			}
+			if lateKey && len(g.bound[p.Cols[c]]) > 0 {
+				a.Args = append(a.Args, Var(rapid.SampledFrom(g.bound[p.Cols[c]]).Draw(t, "lateKeyVar")))
+				continue
+			}
 			a.Args = append(a.Args, g.posArg(p.Cols[c], &pending))
 		}
 		for _, pv := range pending {
